@@ -3,6 +3,7 @@ package c01
 import (
 	"encoding/json"
 	"testing"
+	"time"
 
 	"pgregory.net/rapid"
 
@@ -63,7 +64,9 @@ func runProp(t *testing.T, which, test string, opts GenOpts) {
 	}
 	rapid.Check(t, func(rt *rapid.T) {
 		c := GenCase(rt, opts)
+		stop := vkit.Watch(c, 120*time.Second)
 		o, v, err := Run(c, which)
+		stop()
 		if err != nil {
 			rt.Fatalf("INFRA: %v", err)
 		}
